@@ -10,19 +10,21 @@ Definition same_tree (c : cfg) (sh : MC.shape) (f : list call) : bool :=
   list_eqb nd_eqb (shown (rec_then_plain c sh f)) (shown (plain_then_opt c f)).
 
 (* ------------------------------------------------------------------ divergences (DESIGN section 9) *)
-(* a call that runs exactly the threshold: record keeps `>`, replay drops `<` *)
+(* a call that runs exactly the threshold: both record time (`>=`, since the repair of the boundary defect) and
+   replay time (drops `<`) keep it *)
 Definition c_thr : cfg := mkcfg [] false false 1024 100 0 0 [] true false.
 Definition f_thr : list call := [Call 0 1000 2000 [Call 1 1100 1200 []; Call 2 1300 1401 []]].
 Lemma threshold_boundary :
-  shown (rec_then_plain c_thr MC.PG f_thr) = [(false, 0%N, 0); (false, 2%N, 1); (true, 2%N, 1); (true, 0%N, 0)]
+  shown (rec_then_plain c_thr MC.PG f_thr)
+  = [(false, 0%N, 0); (false, 1%N, 1); (true, 1%N, 1); (false, 2%N, 1); (true, 2%N, 1); (true, 0%N, 0)]
   /\ shown (plain_then_opt c_thr f_thr)
      = [(false, 0%N, 0); (false, 1%N, 1); (true, 1%N, 1); (false, 2%N, 1); (true, 2%N, 1); (true, 0%N, 0)].
 Proof. vm_compute. split; reflexivity. Qed.
 
-(* ... and with no -t at all a zero-duration call is never recorded *)
+(* ... and with no -t at all a zero-duration call is recorded like any other *)
 Definition f_zero : list call := [Call 0 1000 2000 [Call 1 1100 1100 []]].
 Lemma zero_duration :
-  shown (rec_then_plain plain MC.PG f_zero) = [(false, 0%N, 0); (true, 0%N, 0)]
+  shown (rec_then_plain plain MC.PG f_zero) = [(false, 0%N, 0); (false, 1%N, 1); (true, 1%N, 1); (true, 0%N, 0)]
   /\ shown (plain_then_opt plain f_zero) = [(false, 0%N, 0); (false, 1%N, 1); (true, 1%N, 1); (true, 0%N, 0)].
 Proof. vm_compute. split; reflexivity. Qed.
 
